@@ -43,10 +43,23 @@ type Contract struct {
 	Float        string // "exact" (default) or "ideal"
 	Emits        string // name of callback parameter for the emit idiom
 	Inline       bool
-	NoOverflow   bool // do not generate overflow obligations (documented)
+	NoOverflow   bool                   // do not generate overflow obligations (documented)
+	Valid        *Clause                // overflow obligations are proved under this validity condition
+	InlineCalls  map[string]map[int]int // callee key -> loop unrollings, for callees translated in place
+	Shapes       []Shape                // structured parameters: param = ctor(ghosts...)
+	Cases        []*Contract            // additional contract cases proved separately (e.g. for shaped inputs)
+	CaseName     string
 	File         string
 	Line         int
 	KnownFinding map[string]string // obligation-name pattern -> finding id
+}
+
+// Shape declares that a string parameter has the canonical form ctor(g0, g1, ...)
+// with fresh integer ghosts: ext (5 fields), sid (4), hid (3), vid (2).
+type Shape struct {
+	Param  string
+	Ctor   string
+	Ghosts []string
 }
 
 type LemmaStmt struct {
@@ -203,6 +216,29 @@ func (cs *ContractSet) parseFile(path, pkgDir string) error {
 				return fail("duplicate contract for %s", rest)
 			}
 			cs.Funcs[key] = cur
+		case "case":
+			// case <function> <name>: an additional contract case of an already declared function
+			lem = nil
+			fl := strings.Fields(rest)
+			if len(fl) != 2 {
+				return fail("case: want 'case <function> <name>'")
+			}
+			base := cs.Funcs[pkgDir+":"+fl[0]]
+			if base == nil {
+				return fail("case: no contract for %s yet", fl[0])
+			}
+			cur = &Contract{PkgDir: pkgDir, Name: fl[0], CaseName: fl[1], Loops: map[int][]Clause{}, Unroll: map[int]int{}, File: path, Line: rl.line, Float: base.Float, KnownFinding: map[string]string{}, Props: nil}
+			base.Cases = append(base.Cases, cur)
+		case "shape":
+			fl := strings.Fields(rest)
+			if cur == nil || len(fl) < 3 {
+				return fail("shape: want 'shape <param> <ctor> <ghosts...>'")
+			}
+			want := map[string]int{"ext": 5, "sid": 4, "hid": 3, "vid": 2}[fl[1]]
+			if want == 0 || len(fl)-2 != want {
+				return fail("shape: constructor %s takes %d ghosts", fl[1], want)
+			}
+			cur.Shapes = append(cur.Shapes, Shape{Param: fl[0], Ctor: fl[1], Ghosts: fl[2:]})
 		case "lemma":
 			cur = nil
 			lem = &Lemma{Name: rest, PkgDir: pkgDir, File: path, Line: rl.line}
@@ -311,13 +347,39 @@ func (cs *ContractSet) parseFile(path, pkgDir string) error {
 		case "trusted":
 			cur.Trusted = true
 		case "inline":
-			cur.Inline = true
+			if rest == "" {
+				cur.Inline = true
+				break
+			}
+			// inline <callee> [unroll L:N ...]: translate the callee body in place at call sites of this function
+			fl := strings.Fields(rest)
+			if cur.InlineCalls == nil {
+				cur.InlineCalls = map[string]map[int]int{}
+			}
+			m := map[int]int{}
+			for i := 1; i < len(fl); i++ {
+				if fl[i] == "unroll" {
+					continue
+				}
+				var l, n int
+				if _, err := fmt.Sscanf(fl[i], "%d:%d", &l, &n); err != nil {
+					return fail("inline: bad unroll spec %q", fl[i])
+				}
+				m[l] = n
+			}
+			cur.InlineCalls[fl[0]] = m
 		case "float":
 			cur.Float = rest
 		case "emits":
 			cur.Emits = rest
 		case "nooverflow":
 			cur.NoOverflow = true
+		case "valid":
+			c, err := mkClause(rest, rl.line)
+			if err != nil {
+				return err
+			}
+			cur.Valid = &c
 		case "var":
 			if lem == nil {
 				return fail("var outside lemma")
